@@ -301,6 +301,8 @@ Handle(i) ==
          RStay /\ NoCb /\ UNCHANGED <<gotExc, seenRows, info>>
     [] p.k \in {"prog", "profile", "log", "pevents", "tcols"} ->
          RunCbs(i, CbsOf(p)) /\ UNCHANGED <<gotExc, seenRows, info>>
+    [] p.k = "half" -> \* the first part of a packet, and then silence: the body of a packet is read without a deadline
+         rpc' = "midread" /\ NoCb /\ UNCHANGED <<rerr, lateFault, gotExc, seenRows, info>>
     [] OTHER -> \* "bad" code, well-formed unexpected packet, undecodable body, cut, truncated packet
          RRet("err") /\ NoCb /\ UNCHANGED <<gotExc, seenRows, info>>
 
@@ -320,6 +322,8 @@ R_Begin ==
   /\ RU
 (* blocked in conn.Read: data, a closed connection or the read deadline wake it *)
 R_Resume == /\ rpc = "read" /\ Consume /\ RU
+(* inside a packet only a closed connection ends the read (no deadline is armed there, and nobody looks at the context) *)
+R_MidWake == /\ rpc = "midread" /\ connClosed /\ RRet("err") /\ NoCb /\ UNCHANGED <<s2c, gotExc, seenRows, info>> /\ RU
 R_Timeout == /\ rpc = "read" /\ rpc' = "loop"
              /\ NoCb /\ UNCHANGED <<rerr, lateFault, s2c, gotExc, seenRows, info>> /\ RU
 (* the handler installed for input-type inference: select { ctx.Done(); colInfo <- result } *)
@@ -343,7 +347,7 @@ R_Exit ==
   /\ UNCHANGED <<cfg, spc, wpc, rerr, lateFault, pend, c2s, s2c, sidx, caller, closed, connClosed, gotExc, ver, rows, done, info,
                  tail, round, cbS, cbR, seenRows, cblog, call, phase, wbroken, cancelAt, cancelClean>>
 
-ReceiverNext == R_Begin \/ R_Resume \/ R_Timeout \/ R_Info \/ R_Done \/ R_Exit
+ReceiverNext == R_Begin \/ R_Resume \/ R_MidWake \/ R_Timeout \/ R_Info \/ R_Done \/ R_Exit
 
 -----------------------------------------------------------------------------
 (* Cancel-watch: after done, cancel the query unless it ended by itself or  *)
@@ -432,7 +436,7 @@ NextReq ==
 Log(x) == hist' = Append(hist, x)
 Next ==
   \/ SenderNext /\ Log("S") /\ UNCHANGED stalled
-  \/ (R_Begin \/ R_Resume \/ R_Info \/ R_Done \/ R_Exit) /\ Log("R") /\ UNCHANGED stalled
+  \/ (R_Begin \/ R_Resume \/ R_MidWake \/ R_Info \/ R_Done \/ R_Exit) /\ Log("R") /\ UNCHANGED stalled
   \/ R_Timeout /\ Log("T") /\ UNCHANGED stalled
   \/ WatchNext /\ Log("W") /\ UNCHANGED stalled
   \/ ServerSend /\ Log("V") /\ UNCHANGED stalled
@@ -447,7 +451,7 @@ Next ==
 
 Spec == Init /\ [][Next]_vars
 K(A) == A /\ UNCHANGED stalled
-Fair == /\ WF_View(K(SenderNext)) /\ WF_View(K(R_Begin \/ R_Resume \/ R_Info \/ R_Done \/ R_Exit)) /\ WF_View(K(R_Timeout))
+Fair == /\ WF_View(K(SenderNext)) /\ WF_View(K(R_Begin \/ R_Resume \/ R_MidWake \/ R_Info \/ R_Done \/ R_Exit)) /\ WF_View(K(R_Timeout))
         /\ WF_View(K(WatchNext)) /\ WF_View(K(DoReturn)) /\ WF_View(K(NextReq)) /\ \A x \in Roles : WF_View(G_Once(x))
 (* A silent server and a live caller never end Do; what "finite read        *)
 (* timeout" and "cancellation" buy is expressed by fairness of R_Timeout    *)
